@@ -268,6 +268,42 @@ def provenance_roundtrip(part, fmt, n, prov, how, tmpdir):
     part.state(("prov", prov, how, fmt, n))
 
 
+def fmt_keyword(part, tmpdir):
+    """
+    pairwise: the explicit fmt= keyword of save / load TOGETHER WITH the file name - a name with the format's own suffix, with the OTHER
+    format's suffix, with an unknown suffix, with none: the keyword decides on both sides, the molecule comes back
+    """
+    from chmpy.core.molecule import Molecule
+
+    zs = [8, 1, 1, 17]
+    pos = positions(4, "generic", True)
+    d = tempfile.mkdtemp(dir=tmpdir)
+    for fmt in ("xyz", "sdf"):
+        other = "sdf" if fmt == "xyz" else "xyz"
+        for stem in ("m.%s" % fmt, "m.%s" % other, "m.%s" % other.upper(), "m.dat", "m", "m.%s.bak" % other):
+            for given in (fmt, "." + fmt):
+                part.ev()
+                part.tr(2)
+                case = {"kind": "fmtkw"}
+                path = os.path.join(d, stem)
+                try:
+                    make_molecule(zs, pos.copy(), True).save(path, fmt=given)
+                    text = open(path).read()
+                    is_sdf = "V2000" in text
+                    if is_sdf != (fmt == "sdf"):
+                        part.fail("fmt-keyword:written-format", "save(%r, fmt=%r) wrote %s text" % (stem, given, "SDF" if is_sdf else "XYZ"), case)
+                        continue
+                    back = Molecule.load(path, fmt=given)
+                except Exception as e:
+                    part.fail("fmt-keyword:raise", "save / load of %r with fmt=%r raised %s: %s" % (stem, given, type(e).__name__, str(e)[:80]), case)
+                    continue
+                tol = 5.0e-13 if fmt == "xyz" else 5.0e-5
+                if [int(z) for z in back.atomic_numbers] != zs or not (np.abs(np.asarray(back.positions) - pos).max() <= tol * (1 + 1e-6) + 1e-15):
+                    part.fail("fmt-keyword:roundtrip", "save / load of %r with fmt=%r does not return the molecule" % (stem, given), case)
+                part.outcome(("fmtkw", fmt, stem.split(".")[-1].lower() == other))
+    part.nstates(2)
+
+
 def worker(part, jobs):
     tmpdir = tempfile.mkdtemp(prefix="c16_", dir="/dev/shm" if os.path.isdir("/dev/shm") else None)
     try:
@@ -281,6 +317,8 @@ def worker(part, jobs):
                 multi_sdf(part, job[1], job[2])
             elif job[0] == "bigsdf":
                 big_sdf(part, job[1])
+            elif job[0] == "fmtkw":
+                fmt_keyword(part, tmpdir)
             elif job[0] == "prov":
                 provenance_roundtrip(part, *job[1:], tmpdir=tmpdir)
     finally:
@@ -495,6 +533,7 @@ def run(ctx):
             jobs.append(("multi", k, source))
     for d in (0, 1, 2, 3, 4, 5, 10, 12):
         jobs.append(("bigsdf", d))
+    jobs.append(("fmtkw",))
     for fmt in ("xyz", "sdf"):
         for n in (3, 12):
             for prov in ("xyz", "sdf", "sdf-keep-text"):
@@ -519,6 +558,8 @@ def replay(ctx, case):
             roundtrip(ctx, case["fmt"], case["n"], case["offset"], case["coords"], case["bonded"], case["route"], d)
         finally:
             shutil.rmtree(d, ignore_errors=True)
+    elif k == "fmtkw":
+        worker(ctx, [("fmtkw",)])
     elif k == "bigsdf":
         big_sdf(ctx, case["d"])
     elif k == "xyzread":
